@@ -155,6 +155,18 @@ void Model::monitors_may_see_refusal(int sender, const wire::Msg &m) {
   }
 }
 
+// Does a monitor's filter rule take this message?  0 no, 1 yes, 2 not determined: a destination key naming a
+// well-known name is pinned only where the message has no addressee (then it is compared with the DESTINATION
+// header); whether an addressee "is" that name at the instant of a name hand-over is left open.
+static int monitor_rule_verdict(const mr::Rule &r, const wire::Msg &rm, const mr::MatchCtx &ctx) {
+  if (r.has_destination && !wire::valid_unique_name(r.destination) && ctx.has_addressed) {
+    mr::Rule r2 = r;
+    r2.has_destination = false;
+    return mr::matches(r2, rm, ctx, false) ? 2 : 0;
+  }
+  return mr::matches(r, rm, ctx, false) ? 1 : 0;
+}
+
 void Model::capture_loose(const Exp &orig, int addressed, bool fl) {
   for (size_t i = 0; i < conns.size(); i++) {
     Conn &k = conns[i];
@@ -162,14 +174,12 @@ void Model::capture_loose(const Exp &orig, int addressed, bool fl) {
     mr::MatchCtx ctx = ctx_for(-1, addressed, orig.m);
     wire::Msg rm = orig.m;
     for (auto &f : rm.fields) resolve_value(*this, f.val);
-    bool hit = false;
-    bool depends_on_error_name = false;
-    for (auto &r : k.mon_rules) { if (mr::matches(r, rm, ctx, false)) hit = true; }
-    (void)depends_on_error_name;
-    if (!hit) continue;
+    bool hit = false, maybe = false;
+    for (auto &r : k.mon_rules) { int v = monitor_rule_verdict(r, rm, ctx); if (v == 1) hit = true; else if (v == 2) maybe = true; }
+    if (!hit && !maybe) continue;
     Exp e = orig;
     e.last = false; e.pre = false;
-    if ((int)i == becoming_monitor) e.optional = true;
+    if ((int)i == becoming_monitor || !hit) e.optional = true;
     e.what = "monitor's copy of " + orig.what;
     e.prop = "C18";
     probes["monitor_captured_bus_message"]++;
@@ -189,13 +199,14 @@ void Model::capture(int sender, const wire::Msg &m0, int addressed, bool optiona
   for (size_t i = 0; i < conns.size(); i++) {
     Conn &k = conns[i];
     if (!k.alive || !k.monitor) continue;
-    bool hit = false;
-    for (auto &r : k.mon_rules) if (mr::matches(r, rm, ctx, false)) hit = true;
-    if (!hit) continue;
+    bool hit = false, maybe = false;
+    for (auto &r : k.mon_rules) { int v = monitor_rule_verdict(r, rm, ctx); if (v == 1) hit = true; else if (v == 2) maybe = true; }
+    if (!hit && !maybe) continue;
+    bool only_maybe = !hit;
     Exp e;
     e.from_bus = sender < 0;
     e.m = m;
-    e.optional = optional || (int)i == becoming_monitor;   // its own transition: "subsequently" leaves these open
+    e.optional = optional || only_maybe || (int)i == becoming_monitor;   // its own transition: "subsequently" leaves these open
     e.ignore_body = sender < 0 && m.type == wire::T_ERROR;
     e.any_error_name = false;
     e.what = "monitor's copy";
@@ -847,7 +858,7 @@ void Model::become_monitor(int c, const wire::Msg &m) {
   for (auto &v : m.body[0].kids) {
     mr::Rule r;
     std::string why;
-    mr::ParseVerdict pv = mr::parse(v.str, &r, &why);
+    mr::ParseVerdict pv = mr::parse(v.str, &r, &why, true);
     if (pv == mr::PV_INVALID) { reply_err(c, m, ""); probes["become_monitor_bad_rule"]++; return; }
     if (pv == mr::PV_UNSPECIFIED) { k.unchecked = true; exp[(size_t)c].clear(); floating[(size_t)c].clear(); return; }
     r.eavesdrop = true;
